@@ -147,6 +147,8 @@ func typeYAML(f InField) string {
 		return "{type_id: float}"
 	case "pattern":
 		return "{type_id: pattern}"
+	case "enum":
+		return "{type_id: enum_string, values: {alpha: {name: Alpha}, beta: {name: Beta}, gamma: {name: Gamma}}}"
 	case "list_int":
 		return "{type_id: list, items: {type_id: integer}}"
 	case "list_str":
